@@ -172,6 +172,18 @@ ExactIdx(P, nb, A) ==
         \E pre \in {Fold(nb, SubSeqIdx(P, {j \in I : j < i}))} :
            i \in I <=> (P[i] \notin A /\ pre # Invalid /\ Ap(pre, P[i]) # Invalid)
 
+\* The same index set computed left to right (linear instead of 2^Len(P)); used for the long
+\* pending lists of recorded executions.  IdxAgree (checked on every Rebase step of the exhaustive
+\* runs) states that it is the set characterised above.
+RECURSIVE GreedyIdx(_, _, _, _, _)
+GreedyIdx(P, A, i, st, I) ==
+  IF i > Len(P) THEN I
+  ELSE IF P[i] \notin A /\ Ap(st, P[i]) # Invalid
+       THEN GreedyIdx(P, A, i + 1, Ap(st, P[i]), I \cup {i})
+       ELSE GreedyIdx(P, A, i + 1, st, I)
+
+IdxOf(P, nb, A) == IF Len(P) <= 5 THEN ExactIdx(P, nb, A) ELSE GreedyIdx(P, A, 1, nb, {})
+
 ExactKept(P, I) == SubSeqIdx(P, I)
 ExactRest(P, A, I) == SubSeqIdx(P, {i \in (1..Len(P)) \ I : P[i] \notin A})
 
@@ -181,15 +193,19 @@ RebaseFacts(I) ==
    rest  |-> last'.inv = ExactRest(pending, last'.ap, I),
    kept  |-> last'.kept = ExactKept(pending, I)]
 
+IdxAgreeStep ==
+  (last'.op = "Rebase" /\ Len(pending) <= 5) =>
+      ExactIdx(pending, last'.a, last'.ap) = GreedyIdx(pending, last'.ap, 1, last'.a, {})
+
 RebaseKeepsExactlyStep ==
-  last'.op = "Rebase" => RebaseFacts(ExactIdx(pending, last'.a, last'.ap)).keeps
+  last'.op = "Rebase" => RebaseFacts(IdxOf(pending, last'.a, last'.ap)).keeps
 
 RebaseReturnsRestAsInvalidatedStep ==
-  last'.op = "Rebase" => RebaseFacts(ExactIdx(pending, last'.a, last'.ap)).rest
+  last'.op = "Rebase" => RebaseFacts(IdxOf(pending, last'.a, last'.ap)).rest
 
 \* (last'.kept is the positional result of the loop; it equals pending' unless the named deviation happens)
 KeptIsExactStep ==
-  last'.op = "Rebase" => RebaseFacts(ExactIdx(pending, last'.a, last'.ap)).kept
+  last'.op = "Rebase" => RebaseFacts(IdxOf(pending, last'.a, last'.ap)).kept
 KeptIsExact == [][KeptIsExactStep]_vars
 
 BufferedReadsPendingStep ==
@@ -228,8 +244,9 @@ StepViolations ==
          CHOOSE v \in { (IF deviated' \/ f.keeps THEN {} ELSE {"RebaseKeepsExactly"}) \cup
                         (IF deviated \/ f.rest THEN {} ELSE {"RebaseReturnsRestAsInvalidated"}) \cup
                         (IF deviated \/ f.kept THEN {} ELSE {"KeptIsExact"}) \cup
-                        (IF DeviationIsDuplicateOnlyStep THEN {} ELSE {"DeviationIsDuplicateOnly"})
-                        : f \in {RebaseFacts(ExactIdx(pending, last'.a, last'.ap))} } : TRUE
+                        (IF DeviationIsDuplicateOnlyStep THEN {} ELSE {"DeviationIsDuplicateOnly"}) \cup
+                        (IF IdxAgreeStep THEN {} ELSE {"IdxAgree"})
+                        : f \in {RebaseFacts(IdxOf(pending, last'.a, last'.ap))} } : TRUE
     [] OTHER -> {}
 
 Next == Op /\ bad' = bad \cup StepViolations
